@@ -23,9 +23,15 @@ use serde_json::json;
 use serde_json::Map;
 use serde_json::Value;
 use std::collections::BTreeSet;
+#[cfg(not(melda_verif))]
 use std::collections::HashMap;
+#[cfg(melda_verif)]
+use melda_verif_shim::collections::HashMap;
 use std::num::NonZeroUsize;
+#[cfg(not(melda_verif))]
 use std::sync::{Arc, Mutex, RwLock};
+#[cfg(melda_verif)]
+use melda_verif_shim::sync::{Arc, Mutex, RwLock};
 
 pub struct DataStorage {
     adapter: Arc<RwLock<Box<dyn Adapter>>>,
